@@ -6,7 +6,7 @@
    unbounded integers, jump destinations are validated on byte-valued code. *)
 From Coq Require Import ZArith List Bool String Lia ZifyBool ZifyNat.
 From AQ Require Import Lib.Bytes Evm.OpsModel Evm.OpsSpec Evm.OpsProofsGas Evm.OpsProofsMem Evm.OpsProofsJumpdest
-                       Evm.Interp Evm.InterpProofs Evm.InterpProofsPanic.
+                       Evm.Interp Evm.InterpProofs Evm.InterpProofs2 Evm.InterpProofs3 Evm.InterpProofsMemInv Evm.InterpProofsPanic.
 Import ListNotations.
 Local Open Scope Z_scope.
 Set Default Timeout 300.
@@ -141,4 +141,370 @@ Proof.
   rewrite SafeMul_spec in H by lia.
   destruct (maxU64 <? ceil32 b * 32) eqn:E2; [discriminate|].
   injection H as <-. rewrite wrap64_small by lia. unfold ceil32. lia.
+Qed.
+
+(* ------------------------------------------------------------------ pieces *)
+
+Lemma calc_cov : forall off len B, 0 <= len -> calcMemSize off len <= B -> len <> 0 -> off + len <= B.
+Proof. intros off len B Hl H Hne. unfold calcMemSize in H. destruct (Z.sgn len =? 0) eqn:E; lia. Qed.
+
+Lemma exec_arith_no_panic : forall op st, In op arith_ops -> need_exec (E_arith op) <= blen st -> exec_arith op st <> Panic.
+Proof.
+  intros op st Hin Hn. unfold arith_ops in Hin. cbn [In] in Hin.
+  repeat (destruct Hin as [<-|Hin]; [
+    cbn [need_exec Z.eqb Pos.eqb orb] in Hn; unfold blen in Hn;
+    destruct st as [|a [|b [|c r]]]; cbn [length] in Hn; try lia; cbn; try discriminate;
+    repeat match goal with |- context[if ?t then _ else _] => destruct t end; discriminate |]).
+  contradiction.
+Qed.
+
+Lemma op_JUMP_no_panic : forall code pos, Forall byteval code -> 0 <= pos -> op_JUMP code pos <> Panic.
+Proof.
+  intros code pos Hc Hp. unfold op_JUMP. destruct (has_no_panic code pos Hc Hp) as [b ->]. destruct b; discriminate.
+Qed.
+Lemma op_JUMPI_no_panic : forall code pc pos cond, Forall byteval code -> 0 <= pos -> op_JUMPI code pc pos cond <> Panic.
+Proof. intros. unfold op_JUMPI. destruct (negb _); [apply op_JUMP_no_panic; assumption | discriminate]. Qed.
+
+Lemma nth_error_some : forall (l : list Z) n, Z.of_nat n < blen l -> exists v, nth_error l n = Some v.
+Proof. intros l n H. destruct (nth_error l n) eqn:E; [eauto|]. apply nth_error_None in E. unfold blen in H. lia. Qed.
+
+Lemma op_DUP_no_panic : forall n st, 1 <= n <= blen st -> op_DUP n st <> Panic.
+Proof.
+  intros n st H. unfold op_DUP. destruct (nth_error_some st (Z.to_nat (n - 1))) as [v ->]; [lia | discriminate].
+Qed.
+Lemma op_SWAP_no_panic : forall n st, 1 <= n -> n + 1 <= blen st -> op_SWAP n st <> Panic.
+Proof.
+  intros n st H1 H. unfold op_SWAP. destruct st as [|top rest]; [unfold blen in H; cbn in H; lia|].
+  destruct (nth_error_some rest (Z.to_nat (n - 1))) as [v ->]; [unfold blen in *; cbn [length] in H; lia | discriminate].
+Qed.
+
+(* ------------------------------------------------------------------ frames below *)
+
+Definition rec_safe (rec : interp_t) : Prop := forall w f, o_res (rec w f) <> R_panic.
+Definition prec_safe (e : env) : Prop := forall w a i g rd tr ro, o_res (run_precompile e w a i g rd tr ro) <> R_panic.
+
+Lemma finish_call_safe : forall s o, o_res o <> R_panic -> o_res (finish_call s o) <> R_panic.
+Proof. intros s o H. unfold finish_call. destruct (o_res o) eqn:E; cbn [o_res]; try rewrite E; congruence. Qed.
+Lemma run_contract_safe : forall rec e w ca fr rd, rec_safe rec -> prec_safe e -> o_res (run_contract rec e w ca fr rd) <> R_panic.
+Proof. intros. unfold run_contract. destruct (is_precompile e ca); auto. Qed.
+
+Lemma do_call_safe : forall rec e w rd tr depth ro caller addr input gas value, rec_safe rec -> prec_safe e ->
+  o_res (do_call rec e w rd tr depth ro caller addr input gas value) <> R_panic.
+Proof.
+  intros. unfold do_call. destruct (depth >? _); [discriminate|]. destruct (negb _); [discriminate|].
+  destruct (_ && _); [discriminate|]. apply finish_call_safe, run_contract_safe; assumption.
+Qed.
+Lemma do_callcode_safe : forall rec e w rd tr depth ro caller addr input gas value, rec_safe rec -> prec_safe e ->
+  o_res (do_callcode rec e w rd tr depth ro caller addr input gas value) <> R_panic.
+Proof.
+  intros. unfold do_callcode. destruct (depth >? _); [discriminate|]. destruct (negb _); [discriminate|].
+  apply finish_call_safe, run_contract_safe; assumption.
+Qed.
+Lemma do_delegatecall_safe : forall rec e w rd tr depth ro self pc pv addr input gas, rec_safe rec -> prec_safe e ->
+  o_res (do_delegatecall rec e w rd tr depth ro self pc pv addr input gas) <> R_panic.
+Proof.
+  intros. unfold do_delegatecall. destruct (depth >? _); [discriminate|].
+  apply finish_call_safe, run_contract_safe; assumption.
+Qed.
+Lemma do_staticcall_safe : forall rec e w rd tr depth ro caller addr input gas, rec_safe rec -> prec_safe e ->
+  o_res (do_staticcall rec e w rd tr depth ro caller addr input gas) <> R_panic.
+Proof.
+  intros. unfold do_staticcall. destruct (depth >? _); [discriminate|].
+  destruct ro; [|cbn [set_out_ro o_res]]; apply finish_call_safe, run_contract_safe; assumption.
+Qed.
+Lemma do_create_safe : forall rec e w rd tr depth ro caller code gas value, rec_safe rec -> prec_safe e ->
+  o_res (do_create rec e w rd tr depth ro caller code gas value) <> R_panic.
+Proof.
+  intros rec e w rd tr depth ro caller code gas value Hr Hp. unfold do_create.
+  destruct (depth >? _); [discriminate|]. destruct (negb _); [discriminate|]. destruct (_ || _); [discriminate|].
+  match goal with |- context[run_contract rec e ?w3 ?a ?fr rd] =>
+    pose proof (run_contract_safe rec e w3 a fr rd Hr Hp) as Hs; set (o := run_contract rec e w3 a fr rd) in * end.
+  destruct (o_res o) eqn:Eo; try congruence; try (rewrite Eo; discriminate);
+    cbn [o_res]; repeat match goal with |- context[if ?t then _ else _] => destruct t end; cbn [o_res]; discriminate.
+Qed.
+
+Lemma call_return_no_panic : forall w fr rest ro rs o, o_res o <> R_panic ->
+  0 <= ro -> 0 <= rs -> blen (f_mem fr) < 2 ^ 62 -> (rs <> 0 -> ro + rs <= blen (f_mem fr)) ->
+  call_return w fr rest ro rs o <> X_panic.
+Proof.
+  intros w fr rest ro rs o Ho H1 H2 Hm Hc. unfold call_return.
+  destruct (o_res o) eqn:E; try congruence; try discriminate;
+    (pose proof (mem_set_ok' (f_mem fr) ro rs (ret_of (o_res o)) H1 H2 Hm Hc) as Hs; rewrite E in Hs;
+     destruct (mem_set _ _ _ _); try congruence; discriminate).
+Qed.
+
+(* ------------------------------------------------------------------ operation.execute *)
+
+(* the memory covers what the memorySize function of the instruction asked for *)
+Definition covered (x : execfn) (st mem : list Z) : Prop :=
+  match mem_of x with
+  | Some m => forall b, mem_size_big m st = Some (Some b) -> b <= blen mem
+  | None => True
+  end.
+
+Ltac short_stack Hn := exfalso; cbn [need_exec] in Hn; unfold blen in Hn; cbn [length] in Hn; lia.
+Ltac nn H := repeat match type of H with Forall _ (_ :: _) => let a := fresh "Hnn" in inversion H as [|? ? a H']; clear H; rename H' into H; subst end.
+
+Theorem exec_no_panic : forall rec e w fr x temp,
+  rec_safe rec -> prec_safe e ->
+  need_exec x <= blen (f_stack fr) -> need_exec x <= 17 -> exec_param_ok x = true ->
+  nonneg_stack (f_stack fr) -> Forall byteval (f_code fr) -> blen (f_mem fr) < 2 ^ 62 ->
+  covered x (f_stack fr) (f_mem fr) ->
+  exec rec e w fr x temp <> X_panic.
+Proof.
+  intros rec e w fr x temp Hrec Hprec Hn H17 Hpar Hnn Hcode Hmem Hcov.
+  unfold covered in Hcov. unfold nonneg_stack in Hnn.
+  remember (f_stack fr) as st eqn:Est.
+  destruct x; unfold exec; rewrite <- ?Est; cbn [mem_of] in Hcov; try discriminate.
+  - (* arith *)
+    cbn [exec_param_ok] in Hpar. apply existsb_exists in Hpar as (o & Hin & Heq). apply Z.eqb_eq in Heq. subst o.
+    pose proof (exec_arith_no_panic op st Hin Hn) as Ha. destruct (exec_arith op st); try congruence; discriminate.
+  - (* sha3 *)
+    destruct st as [|off [|len r]]; try short_stack Hn. inversion Hnn as [|? ? Ho Hnn']; subst. inversion Hnn' as [|? ? Hl _]; subst.
+    specialize (Hcov _ eq_refl).
+    pose proof (mem_get_ok (f_mem fr) off len Ho Hl Hmem (calc_cov _ _ _ Hl Hcov)) as Hg.
+    destruct (mem_get _ _ _); try congruence; discriminate.
+  - (* balance *) destruct st; [short_stack Hn | discriminate].
+  - (* calldataload *) destruct st; [short_stack Hn | discriminate].
+  - (* calldatacopy *)
+    destruct st as [|a [|b [|c r]]]; try short_stack Hn.
+    inversion Hnn as [|? ? Ha Hnn1]; subst. inversion Hnn1 as [|? ? Hb Hnn2]; subst. inversion Hnn2 as [|? ? Hc _]; subst.
+    specialize (Hcov _ eq_refl). unfold lift_mem, op_DATACOPY.
+    pose proof (mem_set_ok' (f_mem fr) a c (getDataBig (f_input fr) b c) Ha Hc Hmem (calc_cov _ _ _ Hc Hcov)) as Hs.
+    destruct (mem_set _ _ _ _); try congruence; discriminate.
+  - (* codecopy *)
+    destruct st as [|a [|b [|c r]]]; try short_stack Hn.
+    inversion Hnn as [|? ? Ha Hnn1]; subst. inversion Hnn1 as [|? ? Hb Hnn2]; subst. inversion Hnn2 as [|? ? Hc _]; subst.
+    specialize (Hcov _ eq_refl). unfold lift_mem, op_DATACOPY.
+    pose proof (mem_set_ok' (f_mem fr) a c (getDataBig (f_code fr) b c) Ha Hc Hmem (calc_cov _ _ _ Hc Hcov)) as Hs.
+    destruct (mem_set _ _ _ _); try congruence; discriminate.
+  - (* extcodesize *) destruct st; [short_stack Hn | discriminate].
+  - (* extcodecopy *)
+    destruct st as [|a [|b [|c [|d r]]]]; try short_stack Hn.
+    inversion Hnn as [|? ? Ha Hnn1]; subst. inversion Hnn1 as [|? ? Hb Hnn2]; subst. inversion Hnn2 as [|? ? Hc Hnn3]; subst.
+    inversion Hnn3 as [|? ? Hd _]; subst.
+    specialize (Hcov _ eq_refl). unfold lift_mem, op_DATACOPY.
+    pose proof (mem_set_ok' (f_mem fr) b d (getDataBig (get_code w (addr_of a)) c d) Hb Hd Hmem (calc_cov _ _ _ Hd Hcov)) as Hs.
+    destruct (mem_set _ _ _ _); try congruence; discriminate.
+  - (* returndatacopy *)
+    destruct st as [|a [|b [|c r]]]; try short_stack Hn.
+    inversion Hnn as [|? ? Ha Hnn1]; subst. inversion Hnn1 as [|? ? Hb Hnn2]; subst. inversion Hnn2 as [|? ? Hc _]; subst.
+    specialize (Hcov _ eq_refl). unfold lift_mem, op_RETURNDATACOPY.
+    destruct (_ || _); [discriminate|].
+    match goal with |- context[mem_set ?m ?o ?s ?v] => pose proof (mem_set_ok' (f_mem fr) a c v Ha Hc Hmem (calc_cov _ _ _ Hc Hcov)) as Hs end.
+    destruct (mem_set _ _ _ _); try congruence; discriminate.
+  - (* blockhash *) destruct st; [short_stack Hn | discriminate].
+  - (* pop *) destruct st; [short_stack Hn | discriminate].
+  - (* mload *)
+    destruct st as [|off r]; try short_stack Hn. inversion Hnn as [|? ? Ho _]; subst.
+    specialize (Hcov _ eq_refl). unfold calcMemSize in Hcov. change (Z.sgn 32 =? 0) with false in Hcov. cbv iota in Hcov.
+    unfold op_MLOAD. pose proof (mem_get32_ok (f_mem fr) off Ho Hmem Hcov) as Hg.
+    destruct (mem_get _ _ _); try congruence; discriminate.
+  - (* mstore *)
+    destruct st as [|a [|v r]]; try short_stack Hn. inversion Hnn as [|? ? Ha _]; subst.
+    specialize (Hcov _ eq_refl). unfold lift_mem, op_MSTORE.
+    pose proof (mem_set_ok' (f_mem fr) a 32 (PaddedBigBytes v 32) Ha ltac:(lia) Hmem (calc_cov a 32 _ ltac:(lia) Hcov)) as Hs.
+    change (big_Uint64 32) with 32 in Hs.
+    destruct (mem_set _ _ _ _); try congruence; discriminate.
+  - (* mstore8 *)
+    destruct st as [|a [|v r]]; try short_stack Hn. inversion Hnn as [|? ? Ha _]; subst.
+    specialize (Hcov _ eq_refl). unfold calcMemSize in Hcov. change (Z.sgn 1 =? 0) with false in Hcov. cbv iota in Hcov.
+    unfold lift_mem, op_MSTORE8. pose proof p62. rewrite (big_Int64_id a) by lia.
+    destruct ((a <? 0) || (a >=? blen (f_mem fr))) eqn:E; [lia | discriminate].
+  - (* sload *) destruct st; [short_stack Hn | discriminate].
+  - (* sstore *) destruct st as [|a [|v r]]; try short_stack Hn. discriminate.
+  - (* jump *)
+    destruct st as [|pos r]; try short_stack Hn. inversion Hnn as [|? ? Hp _]; subst.
+    pose proof (op_JUMP_no_panic (f_code fr) pos Hcode Hp) as Hj. destruct (op_JUMP _ _); try congruence; discriminate.
+  - (* jumpi *)
+    destruct st as [|pos [|cond r]]; try short_stack Hn. inversion Hnn as [|? ? Hp _]; subst.
+    pose proof (op_JUMPI_no_panic (f_code fr) (f_pc fr) pos cond Hcode Hp) as Hj. destruct (op_JUMPI _ _ _ _); try congruence; discriminate.
+  - (* dup *)
+    cbn [exec_param_ok need_exec] in *. pose proof (op_DUP_no_panic n st ltac:(lia)) as Hd. destruct (op_DUP n st); try congruence; discriminate.
+  - (* swap *)
+    cbn [exec_param_ok need_exec] in *. pose proof (op_SWAP_no_panic n st ltac:(lia) ltac:(lia)) as Hd. destruct (op_SWAP n st); try congruence; discriminate.
+  - (* log *)
+    cbn [exec_param_ok need_exec] in *.
+    destruct st as [|ms [|sz r]]; try (exfalso; unfold blen in Hn; cbn [length] in Hn; lia).
+    inversion Hnn as [|? ? Ho Hnn']; subst. inversion Hnn' as [|? ? Hl _]; subst.
+    destruct (Z.of_nat (length r) <? n) eqn:El; [exfalso; unfold blen in Hn; cbn [length] in Hn; lia|].
+    specialize (Hcov _ eq_refl).
+    pose proof (mem_get_ok (f_mem fr) ms sz Ho Hl Hmem (calc_cov _ _ _ Hl Hcov)) as Hg.
+    destruct (mem_get _ _ _); try congruence; discriminate.
+  - (* create *)
+    destruct st as [|value [|off [|len r]]]; try short_stack Hn.
+    inversion Hnn as [|? ? Hv Hnn1]; subst. inversion Hnn1 as [|? ? Ho Hnn2]; subst. inversion Hnn2 as [|? ? Hl _]; subst.
+    specialize (Hcov _ eq_refl).
+    pose proof (mem_get_ok (f_mem fr) off len Ho Hl Hmem (calc_cov _ _ _ Hl Hcov)) as Hg.
+    destruct (mem_get _ _ _) as [input|?|]; try congruence; try discriminate.
+    match goal with |- context[do_create ?a ?b ?c ?d ?e' ?f ?g ?h ?i ?j ?k] =>
+      pose proof (do_create_safe a b c d e' f g h i j k Hrec Hprec) as Hc; destruct (o_res (do_create a b c d e' f g h i j k)) end;
+      try congruence; discriminate.
+  - (* call *)
+    destruct st as [|g0 [|addr [|value0 [|io [|is [|ro [|rs r]]]]]]]; try short_stack Hn.
+    inversion Hnn as [|? ? H0 Hnn1]; subst. inversion Hnn1 as [|? ? H1 Hnn2]; subst. inversion Hnn2 as [|? ? H2 Hnn3]; subst.
+    inversion Hnn3 as [|? ? Hio Hnn4]; subst. inversion Hnn4 as [|? ? His Hnn5]; subst. inversion Hnn5 as [|? ? Hro Hnn6]; subst.
+    inversion Hnn6 as [|? ? Hrs _]; subst.
+    specialize (Hcov _ eq_refl). apply Z.max_lub_iff in Hcov as [Hc1 Hc2].
+    pose proof (mem_get_ok (f_mem fr) io is Hio His Hmem (calc_cov _ _ _ His Hc2)) as Hg.
+    destruct (mem_get _ _ _) as [args|?|]; try congruence; try discriminate.
+    apply call_return_no_panic; auto using do_call_safe, calc_cov.
+  - (* callcode *)
+    destruct st as [|g0 [|addr [|value0 [|io [|is [|ro [|rs r]]]]]]]; try short_stack Hn.
+    inversion Hnn as [|? ? H0 Hnn1]; subst. inversion Hnn1 as [|? ? H1 Hnn2]; subst. inversion Hnn2 as [|? ? H2 Hnn3]; subst.
+    inversion Hnn3 as [|? ? Hio Hnn4]; subst. inversion Hnn4 as [|? ? His Hnn5]; subst. inversion Hnn5 as [|? ? Hro Hnn6]; subst.
+    inversion Hnn6 as [|? ? Hrs _]; subst.
+    specialize (Hcov _ eq_refl). apply Z.max_lub_iff in Hcov as [Hc1 Hc2].
+    pose proof (mem_get_ok (f_mem fr) io is Hio His Hmem (calc_cov _ _ _ His Hc2)) as Hg.
+    destruct (mem_get _ _ _) as [args|?|]; try congruence; try discriminate.
+    apply call_return_no_panic; auto using do_callcode_safe, calc_cov.
+  - (* return *)
+    destruct st as [|off [|len r]]; try short_stack Hn. inversion Hnn as [|? ? Ho Hnn']; subst. inversion Hnn' as [|? ? Hl _]; subst.
+    specialize (Hcov _ eq_refl).
+    pose proof (mem_get_ok (f_mem fr) off len Ho Hl Hmem (calc_cov _ _ _ Hl Hcov)) as Hg.
+    destruct (mem_get _ _ _); try congruence; discriminate.
+  - (* delegatecall *)
+    destruct st as [|g0 [|addr [|io [|is [|ro [|rs r]]]]]]; try short_stack Hn.
+    inversion Hnn as [|? ? H0 Hnn1]; subst. inversion Hnn1 as [|? ? H1 Hnn3]; subst.
+    inversion Hnn3 as [|? ? Hio Hnn4]; subst. inversion Hnn4 as [|? ? His Hnn5]; subst. inversion Hnn5 as [|? ? Hro Hnn6]; subst.
+    inversion Hnn6 as [|? ? Hrs _]; subst.
+    specialize (Hcov _ eq_refl). apply Z.max_lub_iff in Hcov as [Hc1 Hc2].
+    pose proof (mem_get_ok (f_mem fr) io is Hio His Hmem (calc_cov _ _ _ His Hc2)) as Hg.
+    destruct (mem_get _ _ _) as [args|?|]; try congruence; try discriminate.
+    apply call_return_no_panic; auto using do_delegatecall_safe, calc_cov.
+  - (* staticcall *)
+    destruct st as [|g0 [|addr [|io [|is [|ro [|rs r]]]]]]; try short_stack Hn.
+    inversion Hnn as [|? ? H0 Hnn1]; subst. inversion Hnn1 as [|? ? H1 Hnn3]; subst.
+    inversion Hnn3 as [|? ? Hio Hnn4]; subst. inversion Hnn4 as [|? ? His Hnn5]; subst. inversion Hnn5 as [|? ? Hro Hnn6]; subst.
+    inversion Hnn6 as [|? ? Hrs _]; subst.
+    specialize (Hcov _ eq_refl). apply Z.max_lub_iff in Hcov as [Hc1 Hc2].
+    pose proof (mem_get_ok (f_mem fr) io is Hio His Hmem (calc_cov _ _ _ His Hc2)) as Hg.
+    destruct (mem_get _ _ _) as [args|?|]; try congruence; try discriminate.
+    apply call_return_no_panic; auto using do_staticcall_safe, calc_cov.
+  - (* revert *)
+    destruct st as [|off [|len r]]; try short_stack Hn. inversion Hnn as [|? ? Ho Hnn']; subst. inversion Hnn' as [|? ? Hl _]; subst.
+    specialize (Hcov _ eq_refl).
+    pose proof (mem_get_ok (f_mem fr) off len Ho Hl Hmem (calc_cov _ _ _ Hl Hcov)) as Hg.
+    destruct (mem_get _ _ _); try congruence; discriminate.
+  - (* suicide *) destruct st; [short_stack Hn | discriminate].
+  - (* unknown *) cbn [need_exec] in H17. lia.
+Qed.
+
+(* ------------------------------------------------------------------ one iteration of the loop *)
+
+Lemma calc_nonneg : forall a b, 0 <= a -> 0 <= b -> 0 <= calcMemSize a b.
+Proof. intros. unfold calcMemSize. destruct (_ =? _); lia. Qed.
+
+Lemma mem_size_big_nonneg : forall m st b, nonneg_stack st -> mem_size_big m st = Some (Some b) -> 0 <= b.
+Proof.
+  intros m st b Hnn H. unfold nonneg_stack in Hnn. rewrite Forall_forall in Hnn.
+  assert (Hb : forall n v, back st n = Some v -> 0 <= v) by (intros n v Hv; apply Hnn; unfold back in Hv; eapply nth_error_In; eassumption).
+  destruct m; cbn [mem_size_big] in H; try discriminate;
+    repeat match type of H with context[back st ?n] => let v := fresh "v" in let Hv := fresh "Hv" in
+                                                      destruct (back st n) as [v|] eqn:Hv; [apply Hb in Hv|discriminate] end;
+    injection H as <-; try apply calc_nonneg; try lia; apply Z.max_le_iff; left; apply calc_nonneg; lia.
+Qed.
+
+Lemma resized_len : forall mem ms, ms <= blen (if ms >? 0 then mem_resize mem ms else mem) /\
+                                   blen (if ms >? 0 then mem_resize mem ms else mem) <= Z.max (blen mem) ms.
+Proof.
+  intros mem ms. pose proof (Zle_0_nat (length mem)) as Hm. unfold blen in *.
+  destruct (ms >? 0) eqn:E; [|lia]. unfold mem_resize, blen.
+  destruct (Z.of_nat (length mem) <? ms) eqn:E2; [rewrite app_length, repeat_length|]; lia.
+Qed.
+
+(* the frame is one the interpreter can be in: stack items are non-negative integers, code is made of bytes,
+   the memory is not absurdly long (it never exceeds 0xffffffffe0 bytes in a run) *)
+Definition frame_sane (fr : frame) : Prop :=
+  nonneg_stack (f_stack fr) /\ Forall byteval (f_code fr) /\ blen (f_mem fr) < 2 ^ 61.
+
+Theorem step_no_panic : forall rec e w fr o, wf_env e -> rec_safe rec -> prec_safe e -> frame_sane fr ->
+  step rec e w fr = S_done o -> o_res o <> R_panic.
+Proof.
+  intros rec e w fr o Hwf Hrec Hprec (Hnn & Hcode & Hmem) H. unfold step in H.
+  set (op := get_op (f_code fr) (f_pc fr)) in *.
+  set (c := nth (Z.to_nat op) (e_tbl e) invalid_cop) in *.
+  destruct (wf_tbl e Hwf) as [s Hs].
+  assert (Har : arity_ok c = true) by (subst c; rewrite Hs; apply nth_arity_ok).
+  assert (Hex : exec_ok c = true) by (subst c; rewrite Hs; apply nth_exec_ok).
+  assert (Hmc : InterpProofsMemInv.mem_compat c = true) by (subst c; rewrite Hs; apply InterpProofsMemInv.nth_mem_compat).
+  assert (Hok : cop_ok c = true) by (subst c; rewrite Hs; apply nth_cop_ok).
+  destruct (negb (c_valid c)) eqn:Hv; [injection H as <-; discriminate|].
+  unfold arity_ok in Har. rewrite Hv in Har. cbn [orb] in Har.
+  apply andb_prop in Har as [Har Hp17]. apply andb_prop in Har as [Ham Hag].
+  unfold exec_ok in Hex. rewrite Hv in Hex. cbn [orb] in Hex.
+  apply andb_prop in Hex as [Hex Hbind]. apply andb_prop in Hex as [Hneed Hpar].
+  unfold InterpProofsMemInv.mem_compat in Hmc. rewrite Hv in Hmc. cbn [orb] in Hmc.
+  unfold cop_ok in Hok. rewrite Hv in Hok. cbn [orb] in Hok.
+  apply andb_prop in Hok as [Hok _]. apply andb_prop in Hok as [Hok _]. apply andb_prop in Hok as [Hok _].
+  apply andb_prop in Hok as [Hok _]. apply andb_prop in Hok as [Hok _]. apply andb_prop in Hok as [Hmin0 _].
+  destruct (validateStack _ _ _) as [[]|?|] eqn:Hvs; [|injection H as <-; discriminate|].
+  2: { exfalso. unfold validateStack in Hvs. repeat match type of Hvs with context[if ?b then _ else _] => destruct b end; discriminate. }
+  apply validateStack_spec in Hvs. destruct Hvs as [Hpops _].
+  destruct (restricted e fr op c); [injection H as <-; discriminate|].
+  assert (Hmk : need_mem (c_mem c) < 2000) by (destruct (c_mem c); cbn [need_mem] in *; lia).
+  pose proof (mem_size_big_some (c_mem c) (f_stack fr) ltac:(lia) Hmk) as Hmsb.
+  destruct (mem_size_big (c_mem c) (f_stack fr)) as [msb|] eqn:Emsb; [|congruence].
+  destruct (match msb with Some b => run_memorySize b | None => Ok 0 end) as [ms|?|] eqn:Hms; [|injection H as <-; discriminate|].
+  2: { exfalso. destruct msb as [b|]; [|discriminate]. unfold run_memorySize in Hms.
+       destruct (bigUint64 b) as [? []]; try discriminate. destruct (SafeMul _ _) as [? []]; discriminate. }
+  assert (Hgk : need_gas (c_gas c) < 2000) by (destruct (c_gas c); cbn [need_gas] in *; lia).
+  pose proof (gas_cost_no_panic e w fr (c_gas c) ms ltac:(lia) Hgk) as Hgnp.
+  destruct (gas_cost e w fr (c_gas c) ms) as [g|?|] eqn:Hgc; [|injection H as <-; discriminate|congruence].
+  destruct (f_gas fr <? g_cost g); [injection H as <-; discriminate|].
+  (* the memory size charged for is below the 0xffffffffe0 limit of memoryGasCost *)
+  assert (Hmsb0 : ms <= 0xffffffffe0).
+  { assert (Hor : InterpProofsMemInv.gas_uses_mem (c_gas c) = true \/ ms = 0).
+    { destruct (InterpProofsMemInv.gas_uses_mem (c_gas c)) eqn:Hu; [left; reflexivity|right].
+      destruct (c_mem c) eqn:Hcm; try rewrite Hu in Hmc; try discriminate Hmc.
+      cbn [mem_size_big] in Emsb. injection Emsb as <-. congruence. }
+    destruct (InterpProofsMemInv.gas_cost_mem e w fr (c_gas c) ms g Hwf ltac:(lia) Hgc Hor) as (fee & Hm & _ & _).
+    destruct (Z_le_gt_dec ms 0xffffffffe0) as [Hle|Hgt]; [exact Hle|].
+    rewrite memoryGasCost_error in Hm by lia. discriminate. }
+  match type of H with context[exec rec e (g_world g) ?f1 (c_exec c) (g_temp g)] => set (fr1 := f1) in * end.
+  assert (Hx : exec rec e (g_world g) fr1 (c_exec c) (g_temp g) <> X_panic).
+  { pose proof (resized_len (f_mem fr) ms) as [Hlo Hhi].
+    apply exec_no_panic; try assumption.
+    - change (f_stack fr1) with (f_stack fr). lia.
+    - lia.
+    - change (f_mem fr1) with (if ms >? 0 then mem_resize (f_mem fr) ms else f_mem fr).
+      assert (2 ^ 61 = 2305843009213693952) by reflexivity. assert (2 ^ 62 = 4611686018427387904) by reflexivity. lia.
+    - unfold covered. destruct (mem_of (c_exec c)) as [m|] eqn:Emo; [|exact I].
+      apply memfn_eqb_eq in Hbind. intros b Hb. change (f_stack fr1) with (f_stack fr) in Hb.
+      rewrite <- Hbind, Emsb in Hb. injection Hb as ->.
+      pose proof (mem_size_big_nonneg _ _ _ Hnn Emsb) as Hb0.
+      apply run_memorySize_ge in Hms; [|exact Hb0].
+      change (f_mem fr1) with (if ms >? 0 then mem_resize (f_mem fr) ms else f_mem fr). lia. }
+  destruct (exec rec e (g_world g) fr1 (c_exec c) (g_temp g)); try congruence; try (injection H as <-; discriminate).
+  repeat match type of H with context[if ?b then _ else _] => destruct b end; try discriminate; injection H as <-; discriminate.
+Qed.
+
+(* ------------------------------------------------------------------ precompiled contracts *)
+
+(* every precompile but bigModExp: whatever the oracle says, no panic *)
+Lemma run_precompile_safe : forall e w a i g rd tr ro, a <> 5 -> o_res (run_precompile e w a i g rd tr ro) <> R_panic.
+Proof.
+  intros e w a i g rd tr ro Ha. unfold run_precompile.
+  destruct (a =? 5) eqn:E; [lia|].
+  destruct (e_precomp e a i) as [[og r]|]; [|discriminate].
+  destruct (g <? _); [discriminate|]. destruct (a =? 4); [discriminate|]. destruct r; discriminate.
+Qed.
+
+(* bigModExp: the premise [prec_safe] cannot be dropped for arbitrary gas.  A 1-byte modulus and a declared
+   exponent length of 2^60 cost about 4.6e17 gas (< 2^64); with that much gas Run asks getData for a 2^60-byte
+   buffer and make() panics.  No block holds that gas (the property quantifies over gas up to the block limit). *)
+Definition modexp_huge_input : list Z :=
+  repeat 0 32 ++ (repeat 0 24 ++ [0x10; 0; 0; 0; 0; 0; 0; 0]) ++ (repeat 0 31 ++ [1]) ++ [3; 5].
+Theorem modexp_panics_with_huge_gas :
+  modexp_gas modexp_huge_input = Ok 461168601842738790 /\
+  o_res (run_precompile (demo_env 40000) demo_world 5 modexp_huge_input (2 ^ 63) [] [] false) = R_panic /\
+  o_res (run_precompile (demo_env 40000) demo_world 5 modexp_huge_input 8000000 [] [] false) = R_err (IE_op ErrOutOfGas) [].
+Proof. vm_compute. repeat split; reflexivity. Qed.
+
+(* non-vacuity: a frame the hypotheses of step_no_panic hold of *)
+Example frame_sane_example : frame_sane (new_frame [0x60;1;0x60;0;0x52;0] [] 0xbb 0xaa 0 100000 false 1 []).
+Proof.
+  unfold frame_sane, nonneg_stack, new_frame; cbn [f_stack f_code f_mem]. split; [constructor|]. split.
+  - repeat constructor; unfold byteval; lia.
+  - reflexivity.
 Qed.
